@@ -262,7 +262,7 @@ def check_history(case):
 # histories on rsjsonnet_front::Session over real files (import resolution state is per session)
 
 FS_FILES = {
-    "lib/util.libsonnet": "{who: 'library util', v: 210, this: std.thisFile}",
+    "lib/util.libsonnet": "{who: 'library util', v: 210}",
     "lib/only_lib.libsonnet": "{who: 'only in lib', u: (import 'util.libsonnet').who}",
     "lib2/util.libsonnet": "{who: 'second library util', v: 3}",
     "app1/util.libsonnet": "{who: 'app1 local util', v: 42}",
@@ -278,8 +278,9 @@ FS_FILES = {
     "app1/str.jsonnet": "importstr 'util.libsonnet'",
     "app2/str.jsonnet": "importstr 'util.libsonnet'",
     "app1/deep.jsonnet": "local f(n) = if n == 0 then (import 'util.libsonnet').v else f(n - 1); f(80)",
-    "app2/dotted.jsonnet": "(import './../app2/../lib/util.libsonnet').this",
-    "app2/plain_this.jsonnet": "(import 'util.libsonnet').this",
+    # (std.thisFile is deliberately not exposed: it is "the path the file was first loaded by", which depends on the
+    # order of requests by definition - C13 checks it)
+    "app2/dotted.jsonnet": "(import './../app2/../lib/util.libsonnet').who",
 }
 FS_MAINS = [k for k in sorted(FS_FILES) if k.endswith(".jsonnet")]
 _FS_ROOT = None
